@@ -18,7 +18,19 @@ script is true") is judged against; the implementation is never asked.
   `Expr.Filter`): `$[?(@.a)]` keeps the elements that have a member `a`, whatever its value — also `false`
   or `null`.
 * `count(path)` is the number of nodes the path selects.
-Scripts here are `@`-relative (no `$`): Locate and Walk evaluate a filter with another root (see C11). -/
+* A path operand that starts with `$` is evaluated on the ROOT: the value the whole query is applied to
+  (RFC 9535 §2.2: "the root node identifier `$` refers to the query argument" — wherever it stands, also in a
+  filter nested in the path of another filter's script). `matches` therefore takes the root next to the
+  element.
+
+Two things the code does differently are parameters here, so that the model of each evaluator can be given
+the predicate that evaluator really applies (`Cfg.nestedFilterRoot`, `Cfg.locFilterRootNil`,
+`Cfg.walkFilterRootSelf`; the specification uses none of them):
+* `nest`: script.go evaluates a path operand with `x.Get(v)`, and Get hands ITS argument to the filters of that
+  path as their root: in `$[?(@.q[?(@ == $.a)])]` the inner `$` is the element `@` of the outer filter, not the
+  query argument (known finding C05-nested-filter-root).
+* the root an evaluator passes: `Filter.locate` passes nil, `Filter.Walk` the tested element itself (known
+  findings C11-locate-filter-root, C11-walk-filter-root); see `Driver.rootFor`. -/
 namespace OjgVerif.JPath.FilterSpec
 open OjgVerif OjgVerif.JPath OjgVerif.Script
 
@@ -60,36 +72,54 @@ end
 carries the predicate of its own script) -/
 inductive STm where
   | const (v : Val)
-  | path (fs : List Frag)
+  /-- `@…` (`fromRoot = false`) or `$…`; the fragments are given as a function of the root that the filters
+  NESTED in this path see (their scripts are predicates already, closed over that root) -/
+  | path (fromRoot : Bool) (fs : JV → List Frag)
   | app1 (o : Op) (a : STm)
   | app2 (o : Op) (a b : STm)
 
+/-- the nodes a path operand selects: an `@`-path on the element, a `$`-path on the root. `nest` (the code's
+reading, not the documented one): the filters nested in an `@`-path take the element for their root. -/
+def operand (nest : Bool) (root elem : JV) (fromRoot : Bool) (fs : JV → List Frag) : List JV :=
+  if fromRoot then evalV (fs root) root
+  else evalV (fs (if nest then elem else root)) elem
+
 /-- the values an expression can take on an element: one per choice of a node for every path occurrence -/
-def values (rx : RxEngine) (elem : JV) : STm → List Val
+def values (rx : RxEngine) (nest : Bool) (root elem : JV) : STm → List Val
   | .const v => [v]
-  | .path fs =>
-    match (evalV fs elem).map toVal with
+  | .path r fs =>
+    match (operand nest root elem r fs).map toVal with
     | [] => [.nothing]
     | l => l
   | .app1 o a =>
     if o = .count then
       match a with
-      | .path fs => [Spec.evalOp rx .count (.arr ((evalV fs elem).map toVal)) .null]
+      | .path r fs => [Spec.evalOp rx .count (.arr ((operand nest root elem r fs).map toVal)) .null]
       | _ => [.nothing]
-    else (values rx elem a).map fun x => Spec.evalOp rx o x .null
-  | .app2 o a b => (values rx elem a).flatMap fun x => (values rx elem b).map fun y => Spec.evalOp rx o x y
+    else (values rx nest root elem a).map fun x => Spec.evalOp rx o x .null
+  | .app2 o a b =>
+    (values rx nest root elem a).flatMap fun x => (values rx nest root elem b).map fun y => Spec.evalOp rx o x y
 
 /-- a path alone is an existence test -/
 def normalise : STm → STm
-  | .path fs => .app2 .exists (.path fs) (.const (.bool true))
+  | .path r fs => .app2 .exists (.path r fs) (.const (.bool true))
   | t => t
 
-/-- **the script is true on the element** -/
-def «matches» (rx : RxEngine) (t : STm) (elem : JV) : Bool :=
-  (values rx elem (normalise t)).any Spec.isTrue
+/-- **the script is true on the element** (of a query applied to `root`) -/
+def «matches» (rx : RxEngine) (nest : Bool) (root : JV) (t : STm) (elem : JV) : Bool :=
+  (values rx nest root elem (normalise t)).any Spec.isTrue
 
-/-- the filter fragment of a script -/
-def filterOf (rx : RxEngine) (t : STm) : Frag := .filter (fun v => «matches» rx t v)
+/-- the filter fragment of a script in a query applied to `root`; `none`: every element is its own root
+(what `Filter.Walk` does) -/
+def filterOf (rx : RxEngine) (nest : Bool) (root : Option JV) (t : STm) : Frag :=
+  .filter (fun v => «matches» rx nest (root.getD v) t v)
+
+/-- the documented reading: `$` is the query argument everywhere -/
+abbrev holds (t : STm) (root elem : JV) : Bool := «matches» (fun _ _ => none) false root t elem
+/-- `@` followed by fragments without nested filters -/
+abbrev atP (fs : List Frag) : STm := .path false fun _ => fs
+/-- `$` followed by fragments without nested filters -/
+abbrev rootP (fs : List Frag) : STm := .path true fun _ => fs
 
 /-! documented behaviour, checked on the spot -/
 
@@ -102,14 +132,50 @@ def f10 : JV := .flt [0x40, 0x24, 0, 0, 0, 0, 0, 0]
 def fneg0 : JV := .flt [0x80, 0, 0, 0, 0, 0, 0, 0]
 
 /-- `@ <= 10` is true on 10.0 (and `@ < 10` is not); `9 < 10.0`; `-0.0 == 0` -/
-example : «matches» noRx (.app2 .lte (.path []) (.const (.int 10))) f10 = true ∧
-    «matches» noRx (.app2 .lt (.path []) (.const (.int 10))) f10 = false ∧
-    «matches» noRx (.app2 .gte (.const (.int 10)) (.path [])) f10 = true ∧
-    «matches» noRx (.app2 .lt (.const (.int 9)) (.path [])) f10 = true ∧
-    «matches» noRx (.app2 .eq (.path []) (.const (.int 0))) fneg0 = true := by decide +kernel
+example : holds (.app2 .lte (atP []) (.const (.int 10))) .null f10 = true ∧
+    holds (.app2 .lt (atP []) (.const (.int 10))) .null f10 = false ∧
+    holds (.app2 .gte (.const (.int 10)) (atP [])) .null f10 = true ∧
+    holds (.app2 .lt (.const (.int 9)) (atP [])) .null f10 = true ∧
+    holds (.app2 .eq (atP []) (.const (.int 0))) .null fneg0 = true := by decide +kernel
+
+/-- `-2.5` as bits -/
+def fm2_5 : JV := .flt [0xC0, 0x04, 0, 0, 0, 0, 0, 0]
+
+/-- an integer and a negative non-whole float that truncates to it: `-2.5 < -2`, not equal, either side -/
+example : holds (.app2 .lt (atP []) (.const (.int (-2)))) .null fm2_5 = true ∧
+    holds (.app2 .eq (atP []) (.const (.int (-2)))) .null fm2_5 = false ∧
+    holds (.app2 .gte (atP []) (.const (.int (-2)))) .null fm2_5 = false ∧
+    holds (.app2 .gt (.const (.int (-2))) (atP [])) .null fm2_5 = true ∧
+    holds (.app2 .neq (.const (.int (-2))) (atP [])) .null fm2_5 = true := by decide +kernel
 
 /-- a path alone tests existence, not the value: `@.a` on `{"a":false}` is true, on `{"b":1}` false -/
-example : «matches» noRx (.path [.child [97]]) (.obj [([97], .bool false)]) = true ∧
-    «matches» noRx (.path [.child [97]]) (.obj [([98], .int 1)]) = false := by decide
+example : holds (atP [.child [97]]) .null (.obj [([97], .bool false)]) = true ∧
+    holds (atP [.child [97]]) .null (.obj [([98], .int 1)]) = false := by decide
+
+/-- the root `{"k":2,"d":[{"a":1},{"a":2}]}` -/
+def rootEx : JV := .obj [([107], .int 2), ([100], .arr [.obj [([97], .int 1)], .obj [([97], .int 2)]])]
+
+/-- where a path selects (values have no decidable equality) -/
+def locs (x : List Frag) (d : JV) : List Path := (eval x d).map (·.1)
+
+/-- `$.d[?(@.a == $.k)]` keeps `{"a":2}` only: `$` is the query argument although the filter sits below it -/
+example : locs [.child [100], filterOf noRx false (some rootEx) (.app2 .eq (atP [.child [97]]) (rootP [.child [107]]))] rootEx
+    = [[.key [100], .idx 1]] := by decide +kernel
+
+/-- with a nil root (what `Filter.locate` passes) `$.k` is nothing and the same filter keeps no element; with
+every element as its own root (what `Filter.Walk` does) likewise -/
+example : locs [.child [100], filterOf noRx false (some .null) (.app2 .eq (atP [.child [97]]) (rootP [.child [107]]))] rootEx = [] ∧
+    locs [.child [100], filterOf noRx false none (.app2 .eq (atP [.child [97]]) (rootP [.child [107]]))] rootEx = [] := by
+  decide +kernel
+
+/-- a `$` in a nested filter: on `[{"a":1,"q":[1,5]},{"a":5,"q":[1,5]}]`, `$[?(@.q[?(@ == $[0].a)])]` keeps
+both elements by the documented reading (`$[0].a` is 1, both `q` have a 1); by the code's (`nest`) the inner `$`
+is the element under test, `$[0]` of an object is nothing, and no element is kept -/
+example :
+    let e (a : Int) : JV := .obj [([97], .int a), ([113], .arr [.int 1, .int 5])]
+    let d : JV := .arr [e 1, e 5]
+    let inner (nest : Bool) (r : JV) : Frag := filterOf noRx nest (some r) (.app2 .eq (atP []) (rootP [.nth 0, .child [97]]))
+    let outer (nest : Bool) : Frag := filterOf noRx nest (some d) (.path false fun r => [.child [113], inner nest r])
+    locs [outer false] d = [[.idx 0], [.idx 1]] ∧ locs [outer true] d = [] := by decide +kernel
 
 end OjgVerif.JPath.FilterSpec
